@@ -10,6 +10,7 @@ import (
 	"math/bits"
 	"sort"
 	"strings"
+	"sync"
 )
 
 type SortKind int
@@ -41,7 +42,11 @@ var (
 	unSorts  = map[string]*Sort{}
 )
 
+var sortMu sync.Mutex
+
 func BVSort(w int) *Sort {
+	sortMu.Lock()
+	defer sortMu.Unlock()
 	if s, ok := bvSorts[w]; ok {
 		return s
 	}
@@ -51,6 +56,8 @@ func BVSort(w int) *Sort {
 }
 
 func ArraySort(idx, elem *Sort) *Sort {
+	sortMu.Lock()
+	defer sortMu.Unlock()
 	k := idx.String() + "->" + elem.String()
 	if s, ok := arrSorts[k]; ok {
 		return s
@@ -61,6 +68,8 @@ func ArraySort(idx, elem *Sort) *Sort {
 }
 
 func UnintSort(name string) *Sort {
+	sortMu.Lock()
+	defer sortMu.Unlock()
 	if s, ok := unSorts[name]; ok {
 		return s
 	}
@@ -389,7 +398,8 @@ func (ts *TermStore) Or(a, b *Term) *Term {
 	if a.Op == OpAnd && (a.Args[0] == b || a.Args[1] == b) {
 		return b
 	}
-	return ts.mk(&Term{Op: OpOr, Sort: BoolSort, Args: []*Term{a, b}})
+	// and-inverter form: keeps syntactic identities such as not(a or b) == (not a and not b)
+	return ts.Not(ts.mk(&Term{Op: OpAnd, Sort: BoolSort, Args: []*Term{ts.Not(a), ts.Not(b)}}))
 }
 
 func (ts *TermStore) Implies(a, b *Term) *Term { return ts.Or(ts.Not(a), b) }
@@ -429,6 +439,21 @@ func (ts *TermStore) Ite(c, a, b *Term) *Term {
 	}
 	if c.Op == OpNot {
 		return ts.Ite(c.Args[0], b, a)
+	}
+	// ite(c, x ^ k, x) = x ^ ite(c, k, 0)   (incremental xor updates under a condition)
+	if a.Op == OpBVXor && (a.Args[0] == b || a.Args[1] == b) {
+		k := a.Args[1]
+		if a.Args[1] == b {
+			k = a.Args[0]
+		}
+		return ts.BVBin(OpBVXor, b, ts.Ite(c, k, ts.BV(0, b.Sort.W)))
+	}
+	if b.Op == OpBVXor && (b.Args[0] == a || b.Args[1] == a) {
+		k := b.Args[1]
+		if b.Args[1] == a {
+			k = b.Args[0]
+		}
+		return ts.BVBin(OpBVXor, a, ts.Ite(c, ts.BV(0, a.Sort.W), k))
 	}
 	// ite(c, x, ite(c, y, z)) = ite(c, x, z)
 	if b.Op == OpIte && b.Args[0] == c {
@@ -625,11 +650,21 @@ func (ts *TermStore) BVUn(op Op, a *Term) *Term {
 	return ts.mk(&Term{Op: op, Sort: a.Sort, Args: []*Term{a}})
 }
 
+func constIte(t *Term) bool {
+	return t.Op == OpIte && t.Args[1].Op == OpConst && t.Args[2].Op == OpConst
+}
+
 func (ts *TermStore) BVCmp(op Op, a, b *Term) *Term {
 	if a.Sort != b.Sort || a.Sort.Kind != SBV {
 		panic(fmt.Sprintf("bvcmp sort mismatch %s vs %s", a.Sort, b.Sort))
 	}
 	w := a.Sort.W
+	if constIte(a) && b.Op == OpConst {
+		return ts.Ite(a.Args[0], ts.BVCmp(op, a.Args[1], b), ts.BVCmp(op, a.Args[2], b))
+	}
+	if constIte(b) && a.Op == OpConst {
+		return ts.Ite(b.Args[0], ts.BVCmp(op, a, b.Args[1]), ts.BVCmp(op, a, b.Args[2]))
+	}
 	if a.Op == OpConst && b.Op == OpConst {
 		switch op {
 		case OpBVUlt:
@@ -655,6 +690,9 @@ func (ts *TermStore) Extract(hi, lo int, a *Term) *Term {
 	if a.Op == OpConst {
 		return ts.BV(a.BV>>uint(lo), hi-lo+1)
 	}
+	if constIte(a) {
+		return ts.Ite(a.Args[0], ts.Extract(hi, lo, a.Args[1]), ts.Extract(hi, lo, a.Args[2]))
+	}
 	if a.Op == OpZeroExt && hi < a.Args[0].Sort.W {
 		return ts.Extract(hi, lo, a.Args[0])
 	}
@@ -671,6 +709,9 @@ func (ts *TermStore) ZeroExt(n int, a *Term) *Term {
 	if a.Op == OpConst {
 		return ts.BV(a.BV, a.Sort.W+n)
 	}
+	if constIte(a) {
+		return ts.Ite(a.Args[0], ts.ZeroExt(n, a.Args[1]), ts.ZeroExt(n, a.Args[2]))
+	}
 	return ts.mk(&Term{Op: OpZeroExt, Sort: BVSort(a.Sort.W + n), Args: []*Term{a}, I: n})
 }
 
@@ -680,6 +721,9 @@ func (ts *TermStore) SignExt(n int, a *Term) *Term {
 	}
 	if a.Op == OpConst {
 		return ts.BV(uint64(signExt(a.BV, a.Sort.W)), a.Sort.W+n)
+	}
+	if constIte(a) {
+		return ts.Ite(a.Args[0], ts.SignExt(n, a.Args[1]), ts.SignExt(n, a.Args[2]))
 	}
 	return ts.mk(&Term{Op: OpSignExt, Sort: BVSort(a.Sort.W + n), Args: []*Term{a}, I: n})
 }
@@ -1159,4 +1203,97 @@ func (ts *TermStore) Vars(xs ...*Term) []*Term {
 	}
 	sort.Slice(out, func(i, j int) bool { return out[i].Name < out[j].Name })
 	return out
+}
+
+// SMTScriptLocked renders a script while holding mu (term rendering only reads the DAG, but
+// declarations are shared).
+func (ts *TermStore) SMTScriptLocked(mu *sync.Mutex, asserts []*Term, getModel []*Term) string {
+	mu.Lock()
+	defer mu.Unlock()
+	return ts.SMTScript(asserts, getModel, "")
+}
+
+// OrPC is Or for path conditions: both are left-nested conjunctions that usually share a
+// prefix; the shared prefix is factored out so it stays a syntactic conjunct.
+func (ts *TermStore) OrPC(a, b *Term) *Term {
+	if a == b {
+		return a
+	}
+	if a.IsFalse() {
+		return b
+	}
+	if b.IsFalse() {
+		return a
+	}
+	spine := map[*Term]bool{}
+	for x := a; ; x = x.Args[0] {
+		spine[x] = true
+		if x.Op != OpAnd {
+			break
+		}
+	}
+	var common *Term
+	var restB []*Term
+	for x := b; ; x = x.Args[0] {
+		if spine[x] {
+			common = x
+			break
+		}
+		if x.Op != OpAnd {
+			break
+		}
+		restB = append(restB, x.Args[1])
+	}
+	if common == nil {
+		return ts.Or(a, b)
+	}
+	var restA []*Term
+	for x := a; x != common; x = x.Args[0] {
+		restA = append(restA, x.Args[1])
+	}
+	ra, rb := ts.True(), ts.True()
+	for i := len(restA) - 1; i >= 0; i-- {
+		ra = ts.And(ra, restA[i])
+	}
+	for i := len(restB) - 1; i >= 0; i-- {
+		rb = ts.And(rb, restB[i])
+	}
+	return ts.And(common, ts.Or(ra, rb))
+}
+
+// SplitPC factors two path conditions into a shared prefix and the distinguishing parts.
+func (ts *TermStore) SplitPC(a, b *Term) (common, ra, rb *Term, ok bool) {
+	spine := map[*Term]bool{}
+	for x := a; ; x = x.Args[0] {
+		spine[x] = true
+		if x.Op != OpAnd {
+			break
+		}
+	}
+	var restB []*Term
+	for x := b; ; x = x.Args[0] {
+		if spine[x] {
+			common = x
+			break
+		}
+		if x.Op != OpAnd {
+			break
+		}
+		restB = append(restB, x.Args[1])
+	}
+	if common == nil {
+		return nil, nil, nil, false
+	}
+	var restA []*Term
+	for x := a; x != common; x = x.Args[0] {
+		restA = append(restA, x.Args[1])
+	}
+	ra, rb = ts.True(), ts.True()
+	for i := len(restA) - 1; i >= 0; i-- {
+		ra = ts.And(ra, restA[i])
+	}
+	for i := len(restB) - 1; i >= 0; i-- {
+		rb = ts.And(rb, restB[i])
+	}
+	return common, ra, rb, true
 }
